@@ -662,5 +662,74 @@ theorem findSubseq_of_error (s : Ssi) (key : Bytes) (start : Int) (e : St) (hfin
   unfold Ssi.findSubseq
   rw [hfind]
 
-end EaselModel.Ssi
+/-! ## every written index satisfies the two no-fault conditions -/
 
+theorem zero_mem_strncpy (n : Nat) (k : Bytes) (hl : k.length < n) : (0 : UInt8) ∈ strncpy n k := by
+  obtain ⟨m, hm⟩ : ∃ m, n - k.length = m + 1 := ⟨n - k.length - 1, by omega⟩
+  unfold strncpy
+  rw [hm, List.replicate_succ]
+  simp
+
+/-- the image of a well-formed index whose alias targets are registered primary keys (`AddAlias`'s documented
+    precondition): every key field is terminated -/
+theorem image_terminated {ns : NewSsi} (h : ns.WF) (htg : ∀ a ∈ ns.skeys, ∃ k ∈ ns.pkeys, a.pkey = k.key) :
+    ns.opened.Terminated := by
+  refine ⟨?_, ?_, ?_⟩
+  · intro j buf hj hrd
+    have hj' : j < (sortPKeys ns.pkeys).length := by rw [sortP_len h]; exact hj
+    have hk := h.pkey _ (sortP_mem h (List.getElem_mem hj'))
+    have := read_pname h j hj'
+    simp only [NewSsi.opened] at hrd
+    rw [this] at hrd
+    injection hrd with hrd
+    rw [← hrd]
+    exact zero_mem_strncpy _ _ hk.2.2.1
+  · intro j buf hj hrd
+    have hj' : j < (sortSKeys ns.skeys).length := by rw [sortS_len h]; exact hj
+    have hk := h.skey _ (sortS_mem h (List.getElem_mem hj'))
+    have := read_sname h j hj'
+    simp only [NewSsi.opened] at hrd
+    rw [this] at hrd
+    injection hrd with hrd
+    rw [← hrd]
+    exact zero_mem_strncpy _ _ hk.2.2
+  · intro j buf hj hrd
+    have hj' : j < (sortSKeys ns.skeys).length := by rw [sortS_len h]; exact hj
+    obtain ⟨k, hk, hak⟩ := htg _ (sortS_mem h (List.getElem_mem hj'))
+    have hpk := h.pkey k hk
+    have hpl : ns.plen ≠ 0 := by omega
+    have := read_spkey h j hj' hpl
+    simp only [NewSsi.opened] at hrd
+    rw [this] at hrd
+    injection hrd with hrd
+    rw [← hrd, hak]
+    exact zero_mem_strncpy _ _ hpk.2.2.1
+
+/-- ... and, its keys being all distinct, no stored alias names another stored alias -/
+theorem image_noAliasChain {ns : NewSsi} (h : ns.WF) (hd : ns.Distinct)
+    (htg : ∀ a ∈ ns.skeys, ∃ k ∈ ns.pkeys, a.pkey = k.key) : ns.opened.NoAliasChain := by
+  intro j a t hrec j' t' hrec'
+  obtain ⟨hj, hrd, buf, hbuf, hcs⟩ := hrec
+  obtain ⟨hj', hrd', _⟩ := hrec'
+  simp only [NewSsi.opened] at hj hrd hbuf hj' hrd'
+  have hjs : j < (sortSKeys ns.skeys).length := by rw [sortS_len h]; exact hj
+  have hjs' : j' < (sortSKeys ns.skeys).length := by rw [sortS_len h]; exact hj'
+  -- the target of record j is a registered primary key
+  obtain ⟨k, hk, hak⟩ := htg _ (sortS_mem h (List.getElem_mem hjs))
+  have hpk := h.pkey k hk
+  have hpl : ns.plen ≠ 0 := by omega
+  rw [read_spkey h j hjs hpl] at hbuf
+  injection hbuf with hbuf
+  rw [← hbuf, hak, cstr?_strncpy _ _ hpk.2.1 hpk.2.2.1] at hcs
+  injection hcs with hcs
+  -- record j' carries the alias t
+  have hr := reads_skeys h j' (by simpa using hjs')
+  rw [hr] at hrd'
+  injection hrd' with hrd'
+  have hmem : (sortSKeys ns.skeys)[j'] ∈ ns.skeys := sortS_mem h (List.getElem_mem hjs')
+  have : k.key ≠ ((sortSKeys ns.skeys)[j']).key := hd.2.2 k hk _ hmem
+  apply this
+  rw [hcs]
+  simpa using hrd'.symm
+
+end EaselModel.Ssi
